@@ -1,5 +1,6 @@
 PROP = {
     "id": "C16",
+    "tie2": ["Tie2Secs2Leaves"],
     "harness": "c16",
     "driver": "c16",
     "n_quick": 6000,
